@@ -9,6 +9,7 @@ pub mod c10;
 pub mod c11;
 pub mod c15;
 pub mod c16;
+pub mod c17;
 pub mod c18;
 pub mod c19;
 pub mod c20;
@@ -65,6 +66,7 @@ pub fn replay_file(path: &std::path::Path) -> i32 {
         "c08-sequence" => verdict("C08", path, c08::replay(case)),
         "c11-scenario" => verdict("C11", path, c11::replay(case)),
         "c16-script" => verdict("C16", path, c16::replay(case)),
+        "c17-schedule" => verdict("C17", path, c17::replay(case)),
         "c18-map" => verdict("C18", path, c18::replay(case)),
         "c05-case" => verdict("C05", path, c05::replay(case)),
         k if k.starts_with("c03-") => match c03::replay(case) {
